@@ -24,7 +24,7 @@ Judge(e) ==
 VARIABLE i
 Init == i = 1
 Next == /\ i <= N
-        /\ LET v == Judge(Events[i]) IN v = "ok" \/ PrintT(<<"FAIL", i, v>>)
+        /\ LET v == Judge(Events[i]) IN IF v = "ok" THEN TRUE ELSE PrintT(<<"FAIL", i, v>>)
         /\ i' = i + 1
 Spec == Init /\ [][Next]_i
 AllJudged == TLCGet("stats").diameter - 1 = N
